@@ -355,8 +355,15 @@ class AffineCorrection(darsia.TransformationCorrection):
         # If isometry is turned on, make sure to use the coordinates of voxel centers
         isometry = fit_options.get("isometry", False)
         if isometry:
-            pts_src = pts_src.to_voxel_center().to_coordinate(self.coordinatesystem_src)
-            pts_dst = pts_dst.to_voxel_center().to_coordinate(self.coordinatesystem_dst)
+            # Points provided as coordinates already live in the Coordinate space
+            if not isinstance(pts_src, darsia.Coordinate):
+                pts_src = pts_src.to_voxel_center().to_coordinate(
+                    self.coordinatesystem_src
+                )
+            if not isinstance(pts_dst, darsia.Coordinate):
+                pts_dst = pts_dst.to_voxel_center().to_coordinate(
+                    self.coordinatesystem_dst
+                )
 
         affine_transformation = AffineTransformation(self.dim)
         affine_transformation.fit(pts_src, pts_dst, fit_options)
